@@ -25,7 +25,7 @@ CHECKS.update({
 })
 FP_NOTE = "trusts: the kernel of this sandbox as ground truth for signal delivery; one forked child per case starting from a normalised disposition table; proptest generators seeded from VERIF_SEED"
 CHECKS.update({
- "C05": ("forkprobe","model-based: generated register/unregister/unregister_signal/deliver histories with real raise vs a per-signal ordered-list reference model; dispositions probed after every step; long-run soak (260 000 operations in one process, ids beyond 16 bits, 700 live actions) against an in-process model","§5 C05",
+ "C05": ("forkprobe","model-based: generated register/unregister/unregister_signal/deliver/block/unblock histories (deliveries pending while blocked) with real raise vs a per-signal ordered-list reference model; dispositions probed after every step; long-run soak (260 000 operations in one process, ids beyond 16 bits, 700 live actions) against an in-process model","§5 C05",
          "Exploration against a reference model over generated histories of up to 200 operations on up to 20 signals."),
  "C12": ("forkprobe","model-based: generated new/add_signal/clone/drop histories over the full integer range x 3 exfiltrators; every watched signal probed by real raise after every step; real-thread stress dropping the last owners concurrently","§5 C12",
          "Exploration against an instance model; process death and panicking drops are observations."),
@@ -41,7 +41,7 @@ CHECKS.update({
          "Exploration over synthetic records (tens of thousands per run) plus every sending mechanism for real."),
 })
 CHECKS.update({
- "C09": ("vsched-fork","generated consumer mode x exfiltrator x deliveries/add_signal x nested deliveries x byte schedule with a quiescence observer; every finished delivery of a watched signal must be reported before the system comes to rest; async-style consumers over stream / datagram / seqpacket self-pipes; real-signal bursts on the consumer's own thread","§5 C09",
+ "C09": ("vsched-fork","generated consumer mode x exfiltrator x deliveries/add_signal x nested deliveries x byte schedule with a quiescence observer; every finished delivery of a watched signal must be reported before the system comes to rest; async-style consumers over stream / datagram / seqpacket self-pipes; real-signal bursts on the consumer's own thread; focused add-while-delivering family","§5 C09",
          "Exploration over interleavings of deliveries with the consumer's read/drain/scan steps on a real socketpair; lost wake-ups show as unreported signals at quiescence."),
  "C10": ("vsched-fork","same scenarios; per-yield counting invariant, watched-set membership, record-to-delivery matching by unique sender id, per-signal order","§5 C10",
          "Exploration with an invariant checked at every yield of the recorded history."),
